@@ -77,6 +77,14 @@ class MailModel:
         self.readonly = False
         self.permflags: frozenset | None = None   # as advertised at SELECT
         self.view: list[Msg] = []     # the session's view (seq order)
+        # mailboxes that can hold keywords at all (None: every mailbox);
+        # maildir defines keywords per folder in dovecot-keywords
+        self.keyword_boxes: set | None = None
+
+    def storable(self, box_name: str, flags) -> frozenset:
+        if self.keyword_boxes is None or box_name in self.keyword_boxes:
+            return frozenset(flags)
+        return frozenset(f for f in flags if f.startswith(b'\\'))
 
     # -- helpers ------------------------------------------------------------
 
@@ -139,6 +147,7 @@ class MailModel:
             uid = uids[i] if uids and i < len(uids) else box.next_uid
             flags = set(flags_of(m.get('flags') or ()))
             flags.discard(RECENT)
+            flags = self.storable(box.name, flags)
             msg = Msg(uid, m.get('token'), flags, m.get('date'),
                       len(m['data'].encode('latin-1')))
             box.msgs.append(msg)
@@ -177,7 +186,8 @@ class MailModel:
         out = []
         for i, m in enumerate(targets):
             uid = uids[i] if uids and i < len(uids) else box.next_uid
-            dup = Msg(uid, m.token, m.flags, m.date, m.size)
+            dup = Msg(uid, m.token, self.storable(box.name, m.flags), m.date,
+                      m.size)
             box.msgs.append(dup)
             if uid is not None:
                 box.next_uid = uid + 1
